@@ -244,6 +244,20 @@ def run(src, config, keep_body, keep, via, case):
                 _l, out = c01.minify_lib([src], args)
             except Exception as e:
                 raise Violation('minifying raised %r -- %s' % (e, show(src, 160)), case, 'raises')
+        elif via == 'luamin_two':
+            what = '`p8tool luamin` (second of two carts in one invocation)'
+            p1, p2 = os.path.join(td, 'first.p8'), os.path.join(td, 'second.p8')
+            with open(p1, 'wb') as fh:
+                fh.write(reffmt.write_p8(8, b'warm_up_a=1 warm_up_b=warm_up_a\n', bytes(0x4300)))
+            with open(p2, 'wb') as fh:
+                fh.write(reffmt.write_p8(8, src, bytes(0x4300)))
+            try:
+                rc = tool.main(['luamin'] + cli + [p1, p2])
+            except Exception as e:
+                raise Violation('`p8tool luamin` on two carts raised %r' % e, case, 'cli')
+            if rc != 0:
+                raise Violation('`p8tool luamin` on two carts returned %r' % rc, case, 'cli')
+            out = reffmt.read_p8(open(os.path.join(td, 'second_fmt.p8'), 'rb').read())['code']
         elif via == 'luamin':
             what = '`p8tool luamin`'
             path = os.path.join(td, 'c.p8')
@@ -295,7 +309,7 @@ def build_case(seed, quick=True):
     keep_body, keep = (b'', set())
     if config == 'keep_file':
         keep_body, keep = gen_keep(ch, names)
-    via = ch.weighted([(220, 'lib'), (18, 'luamin'), (18, 'build')])
+    via = ch.weighted([(200, 'lib'), (18, 'luamin'), (18, 'build'), (22, 'luamin_two')])
     return src, names, config, keep_body, keep, via
 
 
@@ -379,7 +393,7 @@ def replay(case):
 def vacuity(total, tier):
     msgs = []
     for lab in ('population>=27', 'population>=703', 'keepfile_has_would_be_id', 'uses_builtin', 'cfg_keep_all',
-                'via_luamin', 'via_build'):
+                'via_luamin', 'via_build', 'via_luamin_two'):
         if total.classes.get(lab, 0) < 2:
             msgs.append('class %s seen %d times' % (lab, total.classes.get(lab, 0)))
     return msgs
